@@ -38,12 +38,24 @@ type HVU struct {
 
 func (v HVU) Hashcode() interface{} { return v.ID }
 
+// HK is a hash code that itself implements VertexHashable (with a different
+// code): identity is hashcode(v), never hashcode(hashcode(v)).
+type HK struct{ ID int }
+
+func (k HK) Hashcode() interface{} { return k.ID + 100000 }
+
+// HVK is a vertex whose hash code is an HK.
+type HVK struct{ ID int }
+
+func (v *HVK) Hashcode() interface{} { return HK{v.ID} }
+
 // GraphCase is a static digraph plus query parameters (C18, C20).
 type GraphCase struct {
 	N       int      `json:"n"`
-	Hash    bool     `json:"hash"`            // vertices are *HV (hash-coded) instead of plain ints
-	Uncmp   bool     `json:"uncmp,omitempty"` // with Hash: vertices are HVU values (hash-coded, not comparable)
-	Edges   [][3]int `json:"edges"`           // u, v, weight; later entries overwrite earlier ones
+	Hash    bool     `json:"hash"`              // vertices are *HV (hash-coded) instead of plain ints
+	Uncmp   bool     `json:"uncmp,omitempty"`   // with Hash: vertices are HVU values (hash-coded, not comparable)
+	HashKey bool     `json:"hashKey,omitempty"` // with Hash: vertices are *HVK (their hash code implements VertexHashable itself)
+	Edges   [][3]int `json:"edges"`             // u, v, weight; later entries overwrite earlier ones
 	Src     int      `json:"src"`
 	Decline []int    `json:"decline,omitempty"` // DFS: vertices whose callback does not descend
 	Kind    string   `json:"kind,omitempty"`    // generator class
@@ -57,7 +69,9 @@ func (gc *GraphCase) Build() (*graph.Graph, []graph.Vertex) {
 	var g graph.Graph
 	vs := make([]graph.Vertex, gc.N)
 	for i := 0; i < gc.N; i++ {
-		if gc.Hash && gc.Uncmp {
+		if gc.Hash && gc.HashKey {
+			vs[i] = &HVK{ID: i}
+		} else if gc.Hash && gc.Uncmp {
 			vs[i] = HVU{ID: i, Tags: []string{"t"}}
 		} else if gc.Hash {
 			vs[i] = &HV{ID: i}
@@ -148,7 +162,7 @@ const Unreachable = -1
 // edge list, d[src] = 0, Unreachable for vertices src cannot reach). Weights
 // are non-negative ints of any size: sums are computed in saturating unsigned
 // arithmetic, and representable is false when the true minimum distance of
-// some reachable vertex does not fit below the largest int (such a graph is
+// some reachable vertex does not fit an int (such a graph is
 // outside what an int-valued distance map can answer).
 func SingleSource(n int, w map[[2]int]int, src int) (row []int, representable bool) {
 	const inf = ^uint64(0)
@@ -191,7 +205,7 @@ func SingleSource(n int, w map[[2]int]int, src int) (row []int, representable bo
 		switch {
 		case x == inf:
 			row[i] = Unreachable
-		case x >= maxInt:
+		case x > maxInt:
 			representable = false
 			row[i] = int(maxInt)
 		default:
@@ -209,6 +223,8 @@ func VID(v graph.Vertex) int {
 	case *HV:
 		return x.ID
 	case HVU:
+		return x.ID
+	case *HVK:
 		return x.ID
 	}
 	return -1
@@ -237,6 +253,7 @@ func GenGraphCase(g G, kind string, maxN, maxW int) *GraphCase {
 	}
 	gc.Hash = g.Bool()
 	gc.Uncmp = gc.Hash && g.Pct(30)
+	gc.HashKey = gc.Hash && !gc.Uncmp && g.Pct(15)
 	// weight palette: small palettes force ties
 	var wp []int
 	switch g.Int(0, 4) {
